@@ -40,6 +40,11 @@ type Case struct {
 	// local midnight falls that many seconds after it starts; the input then trickles in for several
 	// seconds, so the run crosses midnight (the daily record file changes its name).
 	MidnightIn int `json:"local_midnight_in_seconds"`
+	// SameDir: the event log is configured into the same directory as the record (with log_events on).
+	SameDir bool `json:"event_log_in_record_directory"`
+	// QuietMs > 0 (pipe): after chunk number QuietAfter the source sends nothing for that long, stdin open.
+	QuietMs    int `json:"quiet_ms"`
+	QuietAfter int `json:"quiet_after_chunk"`
 }
 
 // tzif builds a minimal TZif (version 1) file for a fixed offset from UTC.
@@ -127,8 +132,12 @@ func check(c Case, o *stats.Obs) error {
 	os.MkdirAll(dir, 0o755)
 	defer os.RemoveAll(dir)
 	logDir := filepath.Join(dir, "logs")
+	eventDir := filepath.Join(dir, "events")
+	if c.SameDir {
+		eventDir = logDir
+	}
 	cfg := fmt.Sprintf(`{"log_events": %v, "message_log_directory": %q, "directory_for_old_message_logs": %q, "event_log_directory": %q}`,
-		c.LogEvents, logDir, filepath.Join(dir, "old"), filepath.Join(dir, "events"))
+		c.LogEvents, logDir, filepath.Join(dir, "old"), eventDir)
 	cfgPath := filepath.Join(dir, "config.json")
 	os.WriteFile(cfgPath, []byte(cfg), 0o644)
 	if c.RecordFull {
@@ -201,6 +210,9 @@ func check(c Case, o *stats.Obs) error {
 				if c.MidnightIn > 0 {
 					time.Sleep(900 * time.Millisecond)
 				}
+				if c.QuietMs > 0 && k == c.QuietAfter {
+					time.Sleep(time.Duration(c.QuietMs) * time.Millisecond)
+				}
 			}
 			w.Close()
 		}
@@ -227,7 +239,7 @@ func check(c Case, o *stats.Obs) error {
 	var werr error
 	select {
 	case werr = <-done:
-	case <-time.After(60 * time.Second):
+	case <-time.After(60*time.Second + time.Duration(c.QuietMs)*time.Millisecond):
 		cmd.Process.Kill()
 		<-done
 		o.Key = "no-exit"
@@ -277,6 +289,12 @@ func check(c Case, o *stats.Obs) error {
 	if c.LogEvents {
 		o.Class("log-events")
 	}
+	if c.SameDir && c.LogEvents {
+		o.Class("event-log-in-record-directory")
+	}
+	if c.QuietMs > 0 {
+		o.Class(fmt.Sprintf("quiet-line-%ds", c.QuietMs/1000))
+	}
 	return nil
 }
 
@@ -309,8 +327,26 @@ func gen1(t *rapid.T) Case {
 	c.LogEvents = rapid.IntRange(0, 3).Draw(t, "logEvents") == 0
 	c.YieldSeed = rapid.IntRange(0, 1<<20).Draw(t, "yieldSeed")
 	c.RecordFull = rapid.IntRange(0, 9).Draw(t, "recordFull") == 5
+	c.SameDir = c.LogEvents && rapid.Bool().Draw(t, "sameDir")
 	return c
 }
+
+// Quiet line: a burst, then seconds of silence with stdin open (5.5 s quick, 33 s thorough), then more.
+func genQuiet(t *rapid.T) Case {
+	c := Case{Len: rapid.IntRange(600, 30000).Draw(t, "len"), Seed: rapid.Uint64Range(0, 1<<32).Draw(t, "seed"), Pipe: true,
+		Procs: rapid.SampledFrom([]int{1, 4}).Draw(t, "procs"), LogEvents: rapid.Bool().Draw(t, "logEvents")}
+	c.Chunks = []int{c.Len/3 + 1}
+	c.QuietAfter = rapid.IntRange(1, 2).Draw(t, "quietAfter")
+	c.QuietMs = 5500
+	if os.Getenv("VERIF_TIER") == "thorough" {
+		c.QuietMs = 33000
+	}
+	return c
+}
+
+var propQuiet = stats.Prop(R, "quiet-line", genQuiet, check)
+
+func TestQuietLine(t *testing.T) { rapid.Check(t, propQuiet) }
 
 // The run crosses local midnight: eight chunks, one roughly every second, midnight after 3-4 seconds.
 func genMidnight(t *rapid.T) Case {
